@@ -7,12 +7,14 @@
 (* function must satisfy the property (count, order, provided candles           *)
 (* unchanged, open/close/high/low/volume VALUES of every filler), and every     *)
 (* case is exported (PATTERN lines) to be replayed into the real                *)
-(* _fill_absent_candles.  QTruthy = TRUE checks the named deviation instead     *)
-(* (TLC must then find the close = 0 counter-example).                          *)
+(* _fill_absent_candles.  Batch SHAPES: ascending, newest-first, two pages in   *)
+(* the wrong order, a minute delivered twice (copy later / earlier in the list),*)
+(* a candle older than the requested start, all combined.  Variant "truthy" /   *)
+(* "cursor" check a named deviation instead (TLC must find a counter-example).  *)
 EXTENDS FillAbsent, TLC, Json
-CONSTANTS MaxLen, Starts, Export, QTruthy
-VARIABLES start, len, present, extra, zero, zopen, flat, done
-vars == <<start, len, present, extra, zero, zopen, flat, done>>
+CONSTANTS MaxLen, Starts, Export, Variant        \* Variant: "code" | "truthy" | "cursor" (named deviations)
+VARIABLES start, len, present, extra, zero, zopen, flat, shape, done
+vars == <<start, len, present, extra, zero, zopen, flat, shape, done>>
 Min2(a, b) == IF a < b THEN a ELSE b
 Max2(a, b) == IF a > b THEN a ELSE b
 RECURSIVE SetToSeq(_)
@@ -23,13 +25,23 @@ Candle(m, j) ==
   LET o == IF j = 1 /\ zopen THEN 0 ELSE IF flat THEN 5 ELSE 10 * m + 1
       c == IF (m - start + 1) \in zero THEN 0 ELSE IF flat THEN 5 ELSE 10 * m + 2
   IN <<m, o, c, Max2(o, c) + (IF flat THEN 0 ELSE 1), Min2(o, c), m + 1, m + 1>>
-Given == [j \in 1..Len(Minutes) |-> Candle(Minutes[j], j)]
+Asc == [j \in 1..Len(Minutes) |-> Candle(Minutes[j], j)]
+Rev(q) == [j \in 1..Len(q) |-> q[Len(q) - j + 1]]
+Rot(q) == LET h == Len(q) \div 2 IN SubSeq(q, h + 1, Len(q)) \o SubSeq(q, 1, h)          \* two pages in the wrong order
+Dup(q) == LET c == q[(Len(q) + 1) \div 2] IN Append(q, <<c[1], c[2] + 5, c[3] + 5, c[4] + 5, c[5] + 5, c[6] + 1, 99>>)   \* a minute delivered twice
+Lead(q) == <<<<start - 2, 7, 8, 9, 6, 3, 98>>>> \o q                                     \* a candle older than the requested start
+Shapes == {"asc", "desc", "rot", "dup", "dup-first", "lead", "lead+dup+desc"}
+Given == CASE shape = "asc" -> Asc [] shape = "desc" -> Rev(Asc) [] shape = "rot" -> Rot(Asc) [] shape = "dup" -> Dup(Asc)
+           [] shape = "dup-first" -> Rev(Dup(Asc)) [] shape = "lead" -> Lead(Asc) [] OTHER -> Rev(Lead(Dup(Asc)))
 Init == /\ start \in Starts /\ len \in 1..MaxLen /\ present \in SUBSET (1..len) /\ extra \in BOOLEAN
         /\ (present # {} \/ extra) /\ zero \in SUBSET present /\ zopen \in BOOLEAN /\ flat \in BOOLEAN
         /\ (flat => (zero = {} /\ ~zopen)) /\ done = FALSE
-Next == /\ ~done /\ done' = TRUE /\ UNCHANGED <<start, len, present, extra, zero, zopen, flat>>
+        /\ shape \in Shapes /\ (shape # "asc" => (zero = {} /\ ~zopen /\ ~flat))     \* value corners x order shapes kept apart
+Next == /\ ~done /\ done' = TRUE /\ UNCHANGED <<start, len, present, extra, zero, zopen, flat, shape>>
         /\ (Export => PrintT(<<"PATTERN", ToJson([start |-> start, end |-> start + len - 1, given |-> Given])>>))
 Spec == Init /\ [][Next]_vars
-Out == IF QTruthy THEN ImplFillTruthy(Given, start, start + len - 1) ELSE ImplFill(Given, start, start + len - 1)
+Out == CASE Variant = "truthy" -> ImplFillTruthy(Given, start, start + len - 1)
+         [] Variant = "cursor" -> ImplFillCursor(Given, start, start + len - 1)
+         [] OTHER -> ImplFill(Given, start, start + len - 1)
 FillIsGaplessAndFaithful == FillVerdict(Given, start, start + len - 1, Out) = "ok"
 =============================================================================
